@@ -73,7 +73,8 @@ def run(ctx):
         badr = [n for n in refs if n.attr != functional and n in [x for x in ast.walk(v.fi.node)]]
         res.check((bool(ncalls) or bool(refs)) and not badn and not badr, "D-DELEG", f, norm((badn or ncalls or refs)[0]) if (badn or ncalls or refs) else functional, "functional", f"{name} does not delegate to networkx.{functional}", loc(v.fi, v.fi.node))
         if takes_s:
-            F.check_use(ctx, res, d, ("s",))
+            with res.guard("F.check_usectx, res, d, s,"):
+                F.check_use(ctx, res, d, ("s",))
             own = [c for c in ast.walk(v.fi.node) if isinstance(c, ast.Call) and isinstance(c.func, ast.Name) and c.func.id == "line_graph"]
             fw = [c for c in own if any(k.arg == "s" and norm(k.value) == "s" for k in c.keywords) or (len(c.args) >= 3 and norm(c.args[2]) == "s")]
             res.check(bool(own) and len(fw) == len(own), "F-USE", f, norm(own[0]) if own else "line_graph(H, s=s)", "s-forwarded", "the line graph is built without the caller's s (the centrality is always that of the 1-line graph)", loc(v.fi, own[0] if own else v.fi.node))
@@ -91,54 +92,57 @@ def run(ctx):
             tests = [n for n in ast.walk(v.fi.node) if isinstance(n, ast.Compare) and len(n.ops) == 1 and isinstance(n.ops[0], (ast.In, ast.NotIn)) and isinstance(n.left, ast.Constant) and n.left.value == "E"]
             res.check(bool(tests), "K-VID", f, '"E" not in k', "edge-vertices-dropped", "the hyperedge vertices of the bipartite projection are not filtered out of the node centralities", loc(v.fi, v.fi.node))
     # ---- D-AVG
-    for name in ("s_betweenness_averaged", "s_closeness_averaged", "s_betweenness_nodes_averaged", "s_closenness_nodes_averaged"):
-        v = ctx.view(f"s_centralities.{name}")
-        f = v.fi.short
-        bodies = _closure(ctx, v)
-        ok_any = False
-        for b in bodies:
-            divs = [n for n in ast.walk(b) if isinstance(n, ast.BinOp) and isinstance(n.op, ast.Div) and isinstance(n.right, ast.Name)]
-            for dv in divs:
-                T = dv.right.id
-                defs = [m for m in ast.walk(b) if isinstance(m, ast.Assign) and isinstance(m.targets[0], ast.Name) and m.targets[0].id == T]
-                coll = None
-                if defs and isinstance(defs[-1].value, ast.Call) and isinstance(defs[-1].value.func, ast.Name) and defs[-1].value.func.id == "len":
-                    coll = norm(defs[-1].value.args[0])
-                loops = [l for l in ast.walk(b) if isinstance(l, ast.For) and coll is not None and coll in norm(l.iter)]
-                good = coll is not None and bool(loops)
-                ok_any = ok_any or good
-                res.check(good, "D-AVG", f, norm(dv), "divisor", "the sum over snapshots is not divided by the number of snapshots that were iterated", loc(v.fi, dv))
-        res.check(ok_any, "D-AVG", f, "res[k] / T", "averaged", "the per-snapshot values are not averaged over the snapshots", loc(v.fi, v.fi.node))
-        subs = [n for b in bodies for n in ast.walk(b) if isinstance(n, ast.Call) and isinstance(n.func, ast.Attribute) and n.func.attr == "subhypergraph"]
-        res.check(bool(subs) and all(not s.args and not s.keywords for s in subs), "D-AVG", f, norm(subs[0]) if subs else "H.subhypergraph()", "snapshots", "the average does not range over all per-time snapshots", loc(v.fi, v.fi.node))
+    with res.guard("D-AVG"):
+        for name in ("s_betweenness_averaged", "s_closeness_averaged", "s_betweenness_nodes_averaged", "s_closenness_nodes_averaged"):
+            v = ctx.view(f"s_centralities.{name}")
+            f = v.fi.short
+            bodies = _closure(ctx, v)
+            ok_any = False
+            for b in bodies:
+                divs = [n for n in ast.walk(b) if isinstance(n, ast.BinOp) and isinstance(n.op, ast.Div) and isinstance(n.right, ast.Name)]
+                for dv in divs:
+                    T = dv.right.id
+                    defs = [m for m in ast.walk(b) if isinstance(m, ast.Assign) and isinstance(m.targets[0], ast.Name) and m.targets[0].id == T]
+                    coll = None
+                    if defs and isinstance(defs[-1].value, ast.Call) and isinstance(defs[-1].value.func, ast.Name) and defs[-1].value.func.id == "len":
+                        coll = norm(defs[-1].value.args[0])
+                    loops = [l for l in ast.walk(b) if isinstance(l, ast.For) and coll is not None and coll in norm(l.iter)]
+                    good = coll is not None and bool(loops)
+                    ok_any = ok_any or good
+                    res.check(good, "D-AVG", f, norm(dv), "divisor", "the sum over snapshots is not divided by the number of snapshots that were iterated", loc(v.fi, dv))
+            res.check(ok_any, "D-AVG", f, "res[k] / T", "averaged", "the per-snapshot values are not averaged over the snapshots", loc(v.fi, v.fi.node))
+            subs = [n for b in bodies for n in ast.walk(b) if isinstance(n, ast.Call) and isinstance(n.func, ast.Attribute) and n.func.attr == "subhypergraph"]
+            res.check(bool(subs) and all(not s.args and not s.keywords for s in subs), "D-AVG", f, norm(subs[0]) if subs else "H.subhypergraph()", "snapshots", "the average does not range over all per-time snapshots", loc(v.fi, v.fi.node))
     # ---- D-SUB
-    v = ctx.view("sub_hypergraph_centrality.subhypergraph_centrality")
-    calls = [n for n in ast.walk(v.fi.node) if isinstance(n, ast.Call) and isinstance(n.func, ast.Attribute) and n.func.attr == "adjacency_matrix"]
-    res.check(bool(calls) and all(norm(c.func.value) == "hypergraph" for c in calls), "D-SUB", v.fi.short, norm(calls[0]) if calls else "hypergraph.adjacency_matrix()", "adjacency", "the centrality is not computed from the adjacency matrix of the given hypergraph", loc(v.fi, v.fi.node))
-    txt = norm(v.fi.node)
-    res.check("eigh" in txt and "logsumexp" in txt, "D-SUB", v.fi.short, "np.linalg.eigh / special.logsumexp", "functional", "the log of the diagonal of exp(A) is not computed through the eigendecomposition / logsumexp", loc(v.fi, v.fi.node))
+    with res.guard("D-SUB"):
+        v = ctx.view("sub_hypergraph_centrality.subhypergraph_centrality")
+        calls = [n for n in ast.walk(v.fi.node) if isinstance(n, ast.Call) and isinstance(n.func, ast.Attribute) and n.func.attr == "adjacency_matrix"]
+        res.check(bool(calls) and all(norm(c.func.value) == "hypergraph" for c in calls), "D-SUB", v.fi.short, norm(calls[0]) if calls else "hypergraph.adjacency_matrix()", "adjacency", "the centrality is not computed from the adjacency matrix of the given hypergraph", loc(v.fi, v.fi.node))
+        txt = norm(v.fi.node)
+        res.check("eigh" in txt and "logsumexp" in txt, "D-SUB", v.fi.short, "np.linalg.eigh / special.logsumexp", "functional", "the log of the diagonal of exp(A) is not computed through the eigendecomposition / logsumexp", loc(v.fi, v.fi.node))
     # ---- D-LABELIDX: the eigenvector centralities index their vectors by label (exemption) - the returned dict must
-    # pair each label with the entry at THAT label, not with the entry at its insertion position
-    res.rules["D-LABELIDX"] = "CEC / ZEC / HEC return {node: x[node]} (or an equivalent pairing in label order), never labels zipped with a vector in insertion order"
-    for name in ("CEC_centrality", "ZEC_centrality", "HEC_centrality"):
-        v = ctx.view(f"eigen_centralities.{name}")
-        rets = [n for n in ast.walk(v.fi.node) if isinstance(n, ast.Return) and n.value is not None]
-        for r in rets:
-            e = r.value
-            ok = None
-            if isinstance(e, ast.DictComp) and isinstance(e.value, ast.Subscript):
-                ok = norm(e.key) == norm(e.value.slice)
-            elif isinstance(e, ast.Call) and norm(e.func) == "dict" and e.args and isinstance(e.args[0], ast.Call) and norm(e.args[0].func) == "zip":
-                first = e.args[0].args[0] if e.args[0].args else None
-                src = first
-                if isinstance(first, ast.Name):
-                    defs = [m.value for m in ast.walk(v.fi.node) if isinstance(m, ast.Assign) and isinstance(m.targets[0], ast.Name) and m.targets[0].id == first.id]
-                    src = defs[-1] if defs else first
-                txt = norm(src) if src is not None else ""
-                ok = txt.startswith("range(") or txt.startswith("sorted(")
-            if ok is None:
-                res.unknown("D-LABELIDX", v.fi.short, norm(r), "pairing", "unrecognised construction of the result", loc(v.fi, r))
-            else:
-                res.check(ok, "D-LABELIDX", v.fi.short, norm(r), "pairing", "labels are paired with vector entries by position in get_nodes() (insertion order) although the vector is indexed by label: scores land on the wrong nodes unless nodes were inserted in increasing order", loc(v.fi, r))
+    with res.guard("D-LABELIDX: the eigenvector centralities index their vectors by label (exemption) - the returned dict must"):
+        # pair each label with the entry at THAT label, not with the entry at its insertion position
+        res.rules["D-LABELIDX"] = "CEC / ZEC / HEC return {node: x[node]} (or an equivalent pairing in label order), never labels zipped with a vector in insertion order"
+        for name in ("CEC_centrality", "ZEC_centrality", "HEC_centrality"):
+            v = ctx.view(f"eigen_centralities.{name}")
+            rets = [n for n in ast.walk(v.fi.node) if isinstance(n, ast.Return) and n.value is not None]
+            for r in rets:
+                e = r.value
+                ok = None
+                if isinstance(e, ast.DictComp) and isinstance(e.value, ast.Subscript):
+                    ok = norm(e.key) == norm(e.value.slice)
+                elif isinstance(e, ast.Call) and norm(e.func) == "dict" and e.args and isinstance(e.args[0], ast.Call) and norm(e.args[0].func) == "zip":
+                    first = e.args[0].args[0] if e.args[0].args else None
+                    src = first
+                    if isinstance(first, ast.Name):
+                        defs = [m.value for m in ast.walk(v.fi.node) if isinstance(m, ast.Assign) and isinstance(m.targets[0], ast.Name) and m.targets[0].id == first.id]
+                        src = defs[-1] if defs else first
+                    txt = norm(src) if src is not None else ""
+                    ok = txt.startswith("range(") or txt.startswith("sorted(")
+                if ok is None:
+                    res.unknown("D-LABELIDX", v.fi.short, norm(r), "pairing", "unrecognised construction of the result", loc(v.fi, r))
+                else:
+                    res.check(ok, "D-LABELIDX", v.fi.short, norm(r), "pairing", "labels are paired with vector entries by position in get_nodes() (insertion order) although the vector is indexed by label: scores land on the wrong nodes unless nodes were inserted in increasing order", loc(v.fi, r))
     res.assumptions += ["CEC / ZEC / HEC / apply index by node label (one-symbol exemptions: the property restricts them to hypergraphs labelled 0..N-1)", "networkx functionals are trusted"]
     return res
